@@ -35,6 +35,9 @@ var kinds = []kind{
 	{"e2", "member(X-Y, [1-odd,2-_,3-_]), (X == 3 -> throw(oops) ; true), put_char(x).", 2, true, true},
 	{"repeat", "repeat, put_char(x).", -1, false, false},
 	{"between", "between(1, 1000000000, X), (X mod 2 =:= 1 -> Y = odd ; true), put_char(x).", -1, false, true},
+	// a search several thousand frames deep between the answers, and before the error
+	{"deep3", "member(X-Y, [1-odd,2-_,3-odd]), down(5000), put_char(x).", 3, false, true},
+	{"deep_e2", "member(X-Y, [1-odd,2-_,3-_]), down(3000), (X == 3 -> throw(oops) ; true), put_char(x).", 2, true, true},
 }
 
 // Case: one history (ops over N S E C) on one query kind; or two histories interleaved on two
@@ -204,6 +207,9 @@ func outputSettles(out *syncBuf, want int) error {
 func check(c Case) error {
 	out := &syncBuf{}
 	p := prolog.New(strings.NewReader(""), out)
+	if err := p.Exec("down(0).\ndown(N) :- N > 0, M is N - 1, down(M).\n"); err != nil {
+		return fmt.Errorf("infrastructure: %v", err)
+	}
 	open := func(k int) (*iter, error) {
 		sols, err := p.Query(kinds[k].Query)
 		if err != nil {
@@ -293,7 +299,7 @@ func TestProp(t *testing.T) {
 	r := h.Start(t, "C12")
 	defer r.Finish(t)
 	maxLen := r.Pick(5, 7)
-	r.Rule(fmt.Sprintf("all call histories over {Next, Scan, Err, Close} up to length %d (4^n for each n) x 9 query kinds (0, 1, 2, 3 answers; an error after 0, 1, 2 answers; two infinite queries), enumerated completely; plus rapid-sampled pairs of histories on two Solutions of one interpreter merged in a generated interleaving. Every query writes one character per solution, so the output counts the goals that ran. Oracle: a model (answers delivered, ended, failed, closed): Next true exactly for answers 1..k in order and false afterwards (after exhaustion, after an error, after Close); Scan after a true Next yields that answer (X counts the answers, Y is bound in odd answers only), both into a fresh destination and into one destination kept across the whole history; Err non-nil exactly after the query ended with its error; first Close nil, later ones ErrClosed; after every call the number of goals run equals the number of answers delivered (nothing runs ahead, nothing after Close); after the history and Close the goroutine count returns to its initial value (polled up to 10 s). Every call runs under a %v watchdog: a call that does not return is the violation 'blocked'. Non-trivial: the history makes a call after exhaustion, an error or Close. Distinct by (kind, history).", maxLen, callTimeout),
+	r.Rule(fmt.Sprintf("all call histories over {Next, Scan, Err, Close} up to length %d (4^n for each n) x 11 query kinds (0, 1, 2, 3 answers; an error after 0, 1, 2 answers; two infinite queries; 3 answers / an error after 2 answers with a recursion 3000-5000 frames deep in between), enumerated completely; plus rapid-sampled pairs of histories on two Solutions of one interpreter merged in a generated interleaving. Every query writes one character per solution, so the output counts the goals that ran. Oracle: a model (answers delivered, ended, failed, closed): Next true exactly for answers 1..k in order and false afterwards (after exhaustion, after an error, after Close); Scan after a true Next yields that answer (X counts the answers, Y is bound in odd answers only), both into a fresh destination and into one destination kept across the whole history; Err non-nil exactly after the query ended with its error; first Close nil, later ones ErrClosed; after every call the number of goals run equals the number of answers delivered (nothing runs ahead, nothing after Close); after the history and Close the goroutine count returns to its initial value (polled up to 10 s). Every call runs under a %v watchdog: a call that does not return is the violation 'blocked'. Non-trivial: the history makes a call after exhaustion, an error or Close. Distinct by (kind, history).", maxLen, callTimeout),
 		"calls take microseconds; the watchdog is orders of magnitude above scheduling noise", "all calls are made from one goroutine at a time")
 	r.Regress(t)
 	if r.Failed() {
